@@ -414,6 +414,49 @@ def nonce_obligations(chk, which=('nonce-construction', 'nonce-display')):
         chk.absorb(ex)
 
 
+def builder_setters(chk):
+    """StateMachineBuilder: each setter replaces its own component and hands every other one on unchanged - in
+    particular a CUP handler given earlier survives every later call, in any order"""
+    o = chk.ob('builder-keeps-components', 'every StateMachineBuilder setter (policy_engine, http, installer, timer, metrics_reporter, storage, config, app_set, cup_handler) returns a builder whose other eight components are exactly those it was called on; so the CUP handler handed to the builder is the one the state machine uses whatever the order of the calls')
+    ex = c15.real_builder_executor(chk)
+    D = Decide(chk, ex, o, cross=False)
+    B = 'StateMachineBuilder'
+    fields = ex.src.fields_of(B)
+    if 'cup_handler' not in fields:
+        raise Inconclusive('StateMachineBuilder has no cup_handler field: %s' % fields)
+    b0 = Tree({}, 'b', 'state_machine::builder::StateMachineBuilder')
+
+    def same(a, b):
+        a = a if not isinstance(a, tuple) else a[2]
+        if ex.veq(a, b):
+            return True
+        return isinstance(a, Ptr) and isinstance(b, Tree) and b.origin is not None and str(a.cell) == b.origin + '*'
+    n = 0
+    for m in fields:
+        fl = ex.defs.get('StateMachineBuilder::' + m)
+        if not fl:
+            D.failed = D.failed or ('inconclusive', 'no setter named %s' % m, None, None)
+            continue
+        res = ex.run_fn(fl[0], [b0, Tree({}, 'x', None)], State())
+        D.no_bad_status(res)
+        for st in res:
+            if st.status != 'done':
+                continue
+            for i, f in enumerate(fields):
+                if f == m:
+                    continue
+                n += 1
+                D.nprops += 1
+                if not same(ex.child(st, st.result, i, None), ex.child(st, b0, i, None)):
+                    D.failed = D.failed or ('violated', 'StateMachineBuilder::%s() does not hand on the %s it was given' % (m, f), None, st)
+    if n < 8 * len(fields):
+        D.failed = D.failed or ('inconclusive', 'vacuous: %d field comparisons' % n, None, None)
+    f = D.done()
+    if f and f[0] == 'violated':
+        o.key = o.name
+    chk.absorb(ex)
+
+
 def build_with_handler(chk):
     o = chk.ob('build-decorates-what-it-sends', 'RequestBuilder::build: metadata is Some exactly when a handler is given and is the handler\'s; the Intermediate handed to the handler starts at the configured service URL and is the very one converted into the HTTP request (its decorated URI is the request URI, its body is serialised for the wire, nothing is altered in between); a decoration error aborts the build')
     ex = c15.real_builder_executor(chk)
@@ -533,10 +576,11 @@ def run(chk):
         o_h.key = o_h.name
     chk.absorb(E.ex)
     nonce_obligations(chk)
+    builder_setters(chk)
     append_query(chk)
     build_with_handler(chk)
     callers.monitor_attempt_loop(chk, chk.tier)
-    chk.obligations = [o for o in chk.obligations if o.name in ('decorate-request', 'exchange-keeps-handler', 'nonce-construction', 'nonce-display', 'append-query-parameter', 'build-decorates-what-it-sends', 'session-and-request-ids')]
+    chk.obligations = [o for o in chk.obligations if o.name in ('decorate-request', 'builder-keeps-components', 'exchange-keeps-handler', 'nonce-construction', 'nonce-display', 'append-query-parameter', 'build-decorates-what-it-sends', 'session-and-request-ids')]
     chk.assumptions += [
         'outside: http::Uri itself (into_parts / from_parts / PathAndQuery parsing and accessors are events: that they split and reassemble a URL faithfully is the http crate\'s contract), and the randomness of Nonce::new (an event returning a fresh value); a nonce is never stored or reused: it flows only into the cup2key value and the returned metadata',
         'every exchange goes through do_omaha_request_and_update_context -> RequestBuilder::build(handler) (C02 exploration), so update checks, retries, event reports and pings are all decorated by the code checked here',
